@@ -224,12 +224,33 @@ func c04Batch(r *kit.Run, idx int64, rng *rand.Rand) {
 					c := c04Case{Construct: construct, N: 20 + lr.IntN(40), W: w}
 					out := c04Build(ctx, c, lr)
 					k := lr.IntN(12)
-					for j := 0; j < k; j++ {
-						if _, err := out.its[0].ReadOne(ctx); err != nil {
-							break
+					if lr.IntN(2) == 0 {
+						// two consumers make the first advance of the same
+						// iterator at the same moment (the lazily created
+						// cancel scope must still be one)
+						bar := kit.NewBarrier(2)
+						var cw sync.WaitGroup
+						for c := 0; c < 2; c++ {
+							cw.Add(1)
+							go func() {
+								defer cw.Done()
+								bar.Wait()
+								for j := 0; j < 1+k/2; j++ {
+									if _, err := out.its[0].ReadOne(ctx); err != nil {
+										return
+									}
+								}
+							}()
 						}
-						if lr.IntN(3) == 0 {
-							kit.Yields(lr.IntN(4))
+						cw.Wait()
+					} else {
+						for j := 0; j < k; j++ {
+							if _, err := out.its[0].ReadOne(ctx); err != nil {
+								break
+							}
+							if lr.IntN(3) == 0 {
+								kit.Yields(lr.IntN(4))
+							}
 						}
 					}
 					switch stop {
